@@ -38,7 +38,10 @@ PeriodPool == << <<6, <<2020, "A", 1>>>>, <<6, <<2020, "S", 2>>>>, <<6, <<2020, 
 TimePool == << <<7, <<Ord(2020, 1, 1), Ord(2020, 12, 31)>>>>, <<7, <<Ord(2020, 3, 5), Ord(2020, 3, 5)>>>>,
                <<7, <<Ord(2020, 1, 1), Ord(2020, 3, 31)>>>>, <<7, <<Ord(2020, 7, 1), Ord(2020, 12, 31)>>>>, <<7, <<Ord(2020, 2, 1), Ord(2020, 2, 29)>>>>,
                <<7, <<Ord(2024, 12, 30), Ord(2025, 1, 5)>>>>, <<7, <<Ord(2020, 12, 28), Ord(2021, 1, 3)>>>>, <<7, <<Ord(2021, 1, 4), Ord(2021, 1, 10)>>>>,
-               <<7, <<Ord(2020, 1, 2), Ord(2020, 3, 31)>>>>, Null >>
+               <<7, <<Ord(2020, 1, 2), Ord(2020, 3, 31)>>>>,
+               \* intervals that look like a period at both ends but span several years: no period denotes them
+               <<7, <<Ord(2020, 1, 1), Ord(2021, 12, 31)>>>>, <<7, <<Ord(2020, 1, 1), Ord(2021, 6, 30)>>>>, <<7, <<Ord(2020, 7, 1), Ord(2022, 12, 31)>>>>,
+               <<7, <<Ord(2020, 1, 1), Ord(2021, 3, 31)>>>>, <<7, <<Ord(2020, 2, 1), Ord(2021, 2, 28)>>>>, Null >>
 DurPool == << <<8, "A">>, <<8, "Q">>, <<8, "D">>, Null >>
 Pool(t) == CASE t = "String" -> StrPool [] t = "Number" -> NumPool [] t = "Integer" -> IntPool [] t = "Boolean" -> BoolPool
              [] t = "Date" -> DatePool [] t = "Time_Period" -> PeriodPool [] t = "Time" -> TimePool [] t = "Duration" -> DurPool
